@@ -5,7 +5,7 @@ P="$1"; ID="$2"; shift 2
 cd /repo || exit 9
 if ! git diff --quiet; then echo "/repo has uncommitted changes"; exit 9; fi
 if ! git apply "$P" 2>/dev/null; then echo "PATCH DOES NOT APPLY: $P"; git reset -q --hard HEAD; exit 8; fi
-cd /verif && ./check "$ID" "$@"; RC=$?
+cd /verif && VERIF_EVIDENCE_DIR=/tmp/seed-trial-evidence ./check "$ID" "$@"; RC=$?
 git -C /repo checkout -- .
 echo "exit=$RC"
 exit $RC
